@@ -51,6 +51,36 @@ def must(dnf, cond, truth=True):
     return bool(dnf) and all(((cond, truth) in cj) or (n is not None and (n, not truth) in cj) for cj in dnf)
 
 
+def opt_dnf(dnf):
+    """tests of an Option in one canonical form (("is-some", X), truth): match arms, if-let, let-else, is_some()/is_none()"""
+    out = []
+    for cj in dnf:
+        cs = set()
+        for c, v in cj:
+            if c[0] == "switch-other" and c[1][0] == "discr" and tuple(c[2]) in ((1,), (0,)):
+                cs.add((("is-some", c[1][1]), (not v) if tuple(c[2]) == (1,) else v))
+                continue
+            m_ = match(("op", "Eq", ("const", V("k")), ("discr", V("x"))), c)
+            if m_ is not None and m_["k"] in (0, 1):
+                cs.add((("is-some", m_["x"]), v if m_["k"] == 1 else (not v)))
+                continue
+            if c[0] == "call" and isinstance(c[1], str) and c[1].endswith("Option::<T>::is_none") and len(c[2]) == 1:
+                x = c[2][0]
+                while x[0] in ("ref", "deref", "deref*"):
+                    x = x[1]
+                cs.add((("is-some", x), not v))
+                continue
+            if c[0] == "call" and isinstance(c[1], str) and c[1].endswith("Option::<T>::is_some") and len(c[2]) == 1:
+                x = c[2][0]
+                while x[0] in ("ref", "deref", "deref*"):
+                    x = x[1]
+                cs.add((("is-some", x), v))
+                continue
+            cs.add((c, v))
+        out.append(frozenset(cs))
+    return terms.simplify_dnf(out)
+
+
 def struct_fields(crate, adt):
     a = crate.adts.get(adt)
     return a["variants"][0]["fields"] if a else []
@@ -639,11 +669,30 @@ def c01_solve(rep, crate, cfg, r):
         DISC = ("discr", ("field", solver, 0))
         okn = oks = False
         buf = None
+
+        def opt_dnf(dnf):
+            """tests of an Option discriminant in one canonical form: (("is-some", X), truth); match arms, if-let and let-else
+            all reduce to it"""
+            out = []
+            for cj in dnf:
+                cs = set()
+                for c, v in cj:
+                    if c[0] == "switch-other" and c[1][0] == "discr" and tuple(c[2]) in ((1,), (0,)):
+                        cs.add((("is-some", c[1][1]), (not v) if tuple(c[2]) == (1,) else v))
+                        continue
+                    m_ = match(("op", "Eq", ("const", V("k")), ("discr", V("x"))), c)
+                    if m_ is not None and m_["k"] in (0, 1):
+                        cs.add((("is-some", m_["x"]), v if m_["k"] == 1 else (not v)))
+                        continue
+                    cs.add((c, v))
+                out.append(frozenset(cs))
+            return out
+        ISSOME = ("is-some", ("field", solver, 0))
         for b, t, dnf in sites:
             if t == ("agg", "adt:std::option::Option::None", ()):
-                okn = must(dnf, N(("op", "Eq", ("const", 0), DISC)), True)
+                okn = must(opt_dnf(dnf), ISSOME, False)
             elif t[0] == "agg" and t[1].endswith("Option::Some"):
-                oks = must(dnf, N(("op", "Eq", ("const", 1), DISC)), True)
+                oks = must(opt_dnf(dnf), ISSOME, True)
                 buf = t[2][0]
         rep.check(okn and oks and len(sites) == 2, R, f.key, "some-iff-solution", where,
                   "%s answers Some exactly when the solver returned intermediate symbols, None exactly when it returned None" % f.key.split("::")[-1],
